@@ -255,6 +255,13 @@ def _tree_mean(check: Check, fi: FuncInfo):
   w_acc = [s for s in wst if wmean._loop_of(ff, s[1]) is loop]
   w_ok = (len(w_init) == 1 and wmean.is_zero_const(w_init[0][2]) and len(w_acc) == 1 and w_acc[0][4] == 'aug:Add' and
           isinstance(w_acc[0][2], ast.Name) and w_acc[0][2].id == wn and wmean._on_every_iteration(ff, loop, w_acc[0][0]))
+  # the running total starts as a *float* zero: an int 0 keeps the weights' own integer dtype, which overflows (int32 counts) instead
+  # of promoting
+  if len(w_init) == 1 and wmean.is_zero_const(w_init[0][2]):
+    v0 = w_init[0][2]
+    is_float = isinstance(v0, ast.Constant) and isinstance(v0.value, float)
+    check.ob('R-WMEAN.init', fi, f'{wname} = {txt(v0)}', is_float,
+             'the weight total is accumulated in floating point (0. + w promotes fixed-width integer weights; 0 + w wraps around)', node=v0)
   check.ob('R-WMEAN.mean', fi, f'{sname}, {wname} over {txt(loop.iter)}',
            ret_ok and it_ok and first_ok and add_ok and w_ok and rec['polarity_ok'],
            f'single pass over (tree, weight) pairs (ok={it_ok}); each tree weighted by its own weight before it is '
